@@ -28,6 +28,8 @@ def cases(draw, tier="quick"):
     P["mode"] = draw(st.sampled_from(["delegate", "deferred", "deferred"]))
     P["codemode"] = draw(st.sampled_from([["set", "set"], ["alloc", "fromA"], ["set", "input"]]))
     payload = st.one_of(st.binary(max_size=20), st.just(b"same"))
+    # (now and then a message of a few kilobytes, or around a power of two)
+    payload = st.one_of(payload, payload, payload, st.sampled_from([2008, 2009, 2048, 4096, 5000, 16384]).map(lambda n: b"\xa7" * n))
     P["sends"] = [draw(st.lists(payload, max_size=5)), draw(st.lists(payload, max_size=5))]
     P["drops"] = draw(st.sampled_from([0, 1, 2, 4, 6]))
     P["w_drop"] = draw(st.sampled_from([1, 3, 6]))
